@@ -227,6 +227,7 @@ class FakeOS:
         self.environ = _real_os.environ
         self._mk("/cwd")
         self._mk("/tmp")
+        self.after_rename = []  # harness hooks fn(fos, src, dst) called right after a rename took effect
         self.fsync_log = []  # (step, kind, path)
         self.rename_log = []
 
@@ -367,6 +368,7 @@ class FakeOS:
                 nxt = Inode("dir")
                 nxt.mtime = self._now()
                 cur.entries[x] = nxt
+                cur.durable[x] = nxt  # model assumption: directory CREATION is durable at once (only file entries need a dir fsync)
             elif nxt.kind != "dir":
                 raise NotADirectoryError(_errno.ENOTDIR, "Not a directory", p)
             cur = nxt
@@ -382,6 +384,7 @@ class FakeOS:
         d = Inode("dir")
         d.mtime = self._now()
         parent.entries[name] = d
+        parent.durable[name] = d
 
     def open(self, p, flags, mode=0o777, dir_fd=None):
         p = _chk(p)
@@ -462,7 +465,13 @@ class FakeOS:
 
     def close(self, fd):
         self._ofd(fd)  # stale / foreign descriptors fail before becoming a step
-        self._pt("close", fd=fd, path=self.fds[fd].path if fd in self.fds else "?")
+        try:
+            self._pt("close", fd=fd, path=self.fds[fd].path if fd in self.fds else "?")
+        except OSError:
+            # Linux: a failing close() still releases the descriptor
+            if fd in self.fds:
+                self._drop_fd(fd)
+            raise
         self._ofd(fd)
         self._drop_fd(fd)
 
@@ -484,6 +493,8 @@ class FakeOS:
         del pa_.entries[na]
         pb_.entries[nb] = ia
         self.rename_log.append((self.world.step, ca, cb, actor()))
+        for h in list(self.after_rename):
+            h(self, ca, cb)
 
     def replace(self, a, b):
         self._rename(a, b, "replace")
@@ -774,6 +785,20 @@ class FakeOS:
         self._walk_tree(top, self._resolve(under)[0], out, durable=True)
         return {p: (e.flushed if e.flushed is not None else b"") for p, e in out.items() if e.kind == "file"}
 
+    def power_loss(self):
+        """Power is lost NOW: every directory falls back to its persisted entries, every file to its flushed
+        content (never-fsynced files become empty); all descriptors and locks vanish."""
+        def rec(d):
+            d.entries = dict(d.durable)
+            for n, e in list(d.entries.items()):
+                if e.kind == "dir":
+                    rec(e)
+                elif e.kind == "file":
+                    e.data = e.flushed if e.flushed is not None else b""
+        rec(self.root)
+        self.fds.clear()
+        self.flocks.clear()
+
     def inode_of(self, p):
         return self._lookup(p)
 
@@ -811,12 +836,18 @@ class _Path:
 
     def exists(s, p):
         p = _chk(p)
-        s.o._pt("stat", path=p)
+        try:
+            s.o._pt("stat", path=p)
+        except OSError:
+            return False  # like os.path.exists: a failing stat() reads as "does not exist"
         return s.o._lookup(p) is not None
 
     def lexists(s, p):
         p = _chk(p)
-        s.o._pt("stat", path=p)
+        try:
+            s.o._pt("stat", path=p)
+        except OSError:
+            return False
         return s.o._lookup(p, follow=False) is not None
 
     def isfile(s, p):
